@@ -130,9 +130,9 @@ def stmtKids (n : Nat) (st2 : Stmt) (s2 : σ) : Stmt × σ :=
   | .gfor names values body =>
     let (vs', a) := mapS (visitExpr P sc n) values s2
     if sc then
-      let a1 := P.push a
-      let (names1, a2) := mapS (tnameInsert P.insert) names a1
-      let (names2, a3) := mapS (tnameTy (visitTy P sc n)) names1 a2
+      let (names1, a1) := mapS (tnameTy (visitTy P sc n)) names a
+      let a2 := P.push a1
+      let (names2, a3) := mapS (tnameInsert P.insert) names1 a2
       let ((b1, _), a4) := P.scope body none a3
       let (b2, a5) := visitBlock P sc n true b1 a4
       (.gfor names2 vs' b2, P.pop a5)
@@ -176,9 +176,19 @@ def stmtKids (n : Nat) (st2 : Stmt) (s2 : σ) : Stmt × σ :=
     else (.localAssign kind names' vs', b)
   | .localFn kind name body =>
     if sc then
-      let (name', a) := P.insertLocalFn name s2
-      let (body', b) := visitFnBody P sc n false body a
-      (.localFn kind name' body', b)
+      -- signature annotations first, in the enclosing scope; then the function name; then the
+      -- parameters and the body in a new scope (fix of F09b)
+      match body with
+      | .mk params variadic varTy ret generics attrs blk =>
+        let (params1, a1) := mapS (tnameTy (visitTy P sc n)) params s2
+        let (varTy', a2) := optS (visitTy P sc n) varTy a1
+        let (ret', a3) := optS (visitTy P sc n) ret a2
+        let (name', a4) := P.insertLocalFn name a3
+        let a5 := P.push a4
+        let (params2, a6) := mapS (tnameInsert P.insert) params1 a5
+        let ((body1, _), a7) := P.scope blk none a6
+        let (body2, a8) := visitBlock P sc n true body1 a7
+        (.localFn kind name' (.mk params2 variadic varTy' ret' generics attrs body2), P.pop a8)
     else
       let (body', a) := visitFnBody P sc n false body s2
       (.localFn kind name body', a)
@@ -203,12 +213,23 @@ def stmtKids (n : Nat) (st2 : Stmt) (s2 : σ) : Stmt × σ :=
   | .typeFn ex name body =>
     match body with
     | .mk params variadic varTy ret generics attrs blk =>
-      let ((b1, _), a1) := P.scope blk none s2
-      let (b2, a2) := visitBlock P sc n true b1 a1
-      let (params', a3) := mapS (tnameTy (visitTy P sc n)) params a2
-      let (varTy', a4) := optS (visitTy P sc n) varTy a3
-      let (ret', a5) := optS (visitTy P sc n) ret a4
-      (.typeFn ex name (.mk params' variadic varTy' ret' generics attrs b2), a5)
+      if sc then
+        -- scope visitors declare the parameters (fix of F09c)
+        let (params1, a1) := mapS (tnameTy (visitTy P sc n)) params s2
+        let (varTy', a2) := optS (visitTy P sc n) varTy a1
+        let (ret', a3) := optS (visitTy P sc n) ret a2
+        let a4 := P.push a3
+        let (params2, a5) := mapS (tnameInsert P.insert) params1 a4
+        let ((b1, _), a6) := P.scope blk none a5
+        let (b2, a7) := visitBlock P sc n true b1 a6
+        (.typeFn ex name (.mk params2 variadic varTy' ret' generics attrs b2), P.pop a7)
+      else
+        let ((b1, _), a1) := P.scope blk none s2
+        let (b2, a2) := visitBlock P sc n true b1 a1
+        let (params', a3) := mapS (tnameTy (visitTy P sc n)) params a2
+        let (varTy', a4) := optS (visitTy P sc n) varTy a3
+        let (ret', a5) := optS (visitTy P sc n) ret a4
+        (.typeFn ex name (.mk params' variadic varTy' ret' generics attrs b2), a5)
   | other => (other, s2)
 
 theorem visitStmt_succ (n : Nat) (st : Stmt) (s : σ) :
@@ -393,7 +414,7 @@ theorem stmtKids_rel (H : HooksRel C P) {n : Nat} (A : All C P sc n) (st : Stmt)
       exact C.gfor (mapS_names (tnameTy_name _) _ _).symm (mapS_rel A.e _ _) (scope_visit_rel H A _ _ _ _)
     · simp only [if_true]
       refine C.gfor ?_ (mapS_rel A.e _ _) (scope_visit_rel H A _ _ _ _)
-      rw [mapS_names (tnameTy_name _), mapS_names (tnameInsert_name H.insert)]
+      rw [mapS_names (tnameInsert_name H.insert), mapS_names (tnameTy_name _)]
   | nfor name start stop step body =>
     simp only [stmtKids]
     cases sc
@@ -420,8 +441,11 @@ theorem stmtKids_rel (H : HooksRel C P) {n : Nat} (A : All C P sc n) (st : Stmt)
     cases sc
     · simp only [Bool.false_eq_true, if_false]
       exact C.localFn (A.f _ _ _)
-    · simp only [if_true, H.insertLocalFn]
-      exact C.localFn (A.f _ _ _)
+    · cases body with
+      | mk params variadic varTy ret generics attrs blk =>
+        simp only [if_true, H.insertLocalFn]
+        refine C.localFn (C.fnBody ?_ (scope_visit_rel H A _ _ _ _))
+        rw [mapS_names (tnameInsert_name H.insert), mapS_names (tnameTy_name _)]
   | repeat_ body cond =>
     simp only [stmtKids]
     cases sc
@@ -438,7 +462,11 @@ theorem stmtKids_rel (H : HooksRel C P) {n : Nat} (A : All C P sc n) (st : Stmt)
   | typeFn ex name body =>
     cases body
     simp only [stmtKids]
-    exact C.typeFn
+    cases sc
+    · simp only [Bool.false_eq_true, if_false]
+      exact C.typeFn
+    · simp only [if_true]
+      exact C.typeFn
 
 theorem all_succ (H : HooksRel C P) {n : Nat} (A : All C P sc n) : All C P sc (n + 1) where
   e := fun e s => by simp only [visitExpr]; exact C.transE (H.expr e s) (A.nd _ _).1
